@@ -120,9 +120,9 @@ func (g *Group) ShareOfKind(i int, k string, rng *rand.Rand) crypto.Signature {
 // ---------------------------------------------------------------- C06 (a): reconstruction on TLC-enumerated index sequences
 
 type MathCase struct {
-	N    int   `json:"n"`
-	Ind  []int `json:"ind"` // polynomial arguments 1..254 in reconstruction order
-	Seed int64 `json:"seed"`
+	N    int    `json:"n"`
+	Ind  []int  `json:"ind"` // polynomial arguments 1..254 in reconstruction order
+	Seed int64  `json:"seed"`
 	ID   string `json:"id"`
 }
 
